@@ -6,8 +6,9 @@
 (* An element is a record [tag, ns, attrs, kids]: attrs a function from a  *)
 (* set of attribute names to a value kind, kids a sequence of elements.    *)
 (* The mutation alphabet is the one of the property's quantifier:          *)
-(*   children  deleted / duplicated / reordered / re-namespaced / nested   *)
-(*             under the wrong parent (a sibling),                         *)
+(*   children  deleted / duplicated / reordered / re-namespaced / renamed  *)
+(*             / nested under the wrong parent (a sibling) / added with an *)
+(*             unknown name in a namespace the parser knows,               *)
 (*   attributes missing / empty / huge / negative / non-numeric,           *)
 (*   unknown enum strings, deep nesting.                                   *)
 (* Every action is addressed by a path (child indices from the root) and,  *)
@@ -77,6 +78,9 @@ Here(t, m) ==
                 k2 == [t.kids EXCEPT ![j] = [@ EXCEPT !.kids = Append(@, moved)]]
             IN [t EXCEPT !.kids = RemoveAt(k2, m.i)]
       [] m.op = "Renamespace"      -> [t EXCEPT !.ns = "foreign"]
+      [] m.op = "Rename"           -> [t EXCEPT !.tag = "unknown"]    \* a child name the parent does not know
+      \* a new first child with an unknown name in a namespace the parser knows
+      [] m.op = "AddUnknownChild"  -> [t EXCEPT !.kids = <<Leaf("unknown", m.ns, [a \in {} |-> "text"])>> \o @]
       [] m.op = "DropAttr"         -> [t EXCEPT !.attrs = [a \in (DOMAIN @) \ {m.a} |-> @[a]]]
       [] m.op = "EmptyAttr"        -> [t EXCEPT !.attrs[m.a] = "empty"]
       [] m.op = "HugeAttr"         -> [t EXCEPT !.attrs[m.a] = "huge"]
@@ -90,6 +94,9 @@ Apply(t, p, m) == IF p = <<>> THEN Here(t, m)
                   ELSE [t EXCEPT !.kids[Head(p)] = Apply(@, Tail(p), m)]
 
 (* --- which mutations are possible on a tree -------------------------------- *)
+\* the namespaces the parsers branch on (abstract: those of the seed; concrete: for a parent element
+\* (namespace, name) every namespace a child of such an element has anywhere in the corpus)
+KnownNs == {"client", "ext1", "ext2"}
 ChildOps == {"DeleteChild", "DuplicateChild", "SwapSiblings", "MoveUnderSibling"}
 AttrOps  == {"DropAttr", "EmptyAttr", "HugeAttr", "NegativeAttr", "NonNumericAttr", "UnknownEnum"}
 
@@ -101,6 +108,8 @@ Enabled(t, m) ==
           [] m.op = "SwapSiblings"       -> m.i \in 1..(Len(e.kids) - 1)
           [] m.op = "MoveUnderSibling"   -> m.i \in 1..Len(e.kids) /\ Len(e.kids) >= 2
           [] m.op = "Renamespace"        -> e.ns # "foreign"
+          [] m.op = "Rename"             -> m.p # <<>> /\ e.tag # "unknown"   \* the root keeps its identity (OneRoot)
+          [] m.op = "AddUnknownChild"    -> m.ns \in KnownNs /\ Size(t) + 1 <= MaxNodes
           [] m.op \in {"DropAttr", "EmptyAttr", "HugeAttr"} -> m.a \in DOMAIN e.attrs /\ e.attrs[m.a] # m.to
           \* a negative or non-numeric value is interesting where a number is expected,
           \* an unknown word where one of a fixed set is expected
@@ -111,10 +120,19 @@ Enabled(t, m) ==
 AttrNames == {"id", "type", "n", "k", "e", "v"}
 Target(op) == CASE op = "EmptyAttr" -> "empty" [] op = "HugeAttr" -> "huge" [] OTHER -> "none"
 
+\* Moves is defined for ANY tree: besides the plans TLC enumerates from the abstract Seed, the
+\* driver enumerates {m \in Moves(s) : Enabled(s, m)} for every concrete seed document s -- every
+\* one-step mutation at every element, attribute and character-data position of every seed
+\* (character data of a leaf is modelled as an attribute).  AllOps is the alphabet.
+AllOps == {"DeleteChild", "DuplicateChild", "SwapSiblings", "MoveUnderSibling", "Renamespace", "Rename", "AddUnknownChild",
+           "DropAttr", "EmptyAttr", "HugeAttr", "NegativeAttr", "NonNumericAttr", "UnknownEnum", "Nest"}
+
 Moves(t) ==
     LET P == Paths(t) IN
       {[op |-> o, p |-> p, i |-> i] : o \in ChildOps, p \in P, i \in 1..3}
       \cup {[op |-> "Renamespace", p |-> p] : p \in P}
+      \cup {[op |-> "Rename", p |-> p] : p \in P}
+      \cup {[op |-> "AddUnknownChild", p |-> p, ns |-> n] : p \in P, n \in KnownNs}
       \cup {[op |-> o, p |-> p, a |-> a, to |-> Target(o)] : o \in AttrOps, p \in P, a \in AttrNames}
       \cup {[op |-> "Nest", p |-> p, d |-> d] : p \in P, d \in Depths}
 
@@ -138,7 +156,7 @@ Spec == Init /\ [][Next]_vars
 RECURSIVE WF(_)
 WF(t) ==
     /\ DOMAIN t = {"tag", "ns", "attrs", "kids"}
-    /\ t.tag \in {"stanza", "payload", "item", "other"}
+    /\ t.tag \in {"stanza", "payload", "item", "other", "unknown"}
     /\ t.ns \in {"client", "ext1", "ext2", "foreign"}
     /\ DOMAIN t.attrs \subseteq AttrNames              \* a function: attribute names are unique
     /\ \A a \in DOMAIN t.attrs : t.attrs[a] \in Kinds
